@@ -1,150 +1,21 @@
 (** C16 (zsh) at the level of the command tree the user wrote: [generate_zsh c d bin] = [set_bin_name] + [Command::build]
-    + the generator.  When no subcommand of the user's tree carries an explicit bin name ([binless]: nothing in the spec
-    formats sets one) and the bin name given to [generate] is not empty, [build] yields a [linked] tree
-    ([_build_bin_names_internal] gives every subcommand "parent's bin name, a space, its name"), so [zsh_total] applies:
-    the generator writes a script for EVERY such tree. *)
+    + the generator.  When no subcommand of the user's tree carries an explicit bin name ([BuildLinked.nb]: nothing in the
+    spec formats sets one) and the bin name given to [generate] is not empty, [build] yields a [linked] tree
+    ([BuildLinked.build_linked]), so [zsh_total] applies: the generator writes a script for EVERY such tree.
+    Round 3: the class [zsh_ok] of the exact-lookup, dispatch and coverage theorems is established by [build] from
+    conditions on the USER's tree ([build_zsh_ok]; the names of the built tree are [BuildSkeleton.bskel] of the user's). *)
 From ClapModel Require Import Base.Bytes Complete.AotTree Complete.AotProofs Complete.BashModel Complete.BashProofs.
 From ClapModel Require Import Complete.FishModel Complete.BuildTexts Complete.ZshModel Complete.ZshProofs.
+From ClapModel Require Import Complete.BuildLinked Complete.BuildSkeleton.
 From Coq Require Import String Lia.
 Open Scope N_scope.
 Open Scope list_scope.
-
-(** no proper descendant carries a bin name *)
-Fixpoint binless (c : cmd) : bool :=
-  match c with
-  | mkCmd _ _ _ subs _ _ _ _ _ => forallb (fun s => negb (is_some (c_bin s)) && binless s) subs
-  end.
-Definition unnamed (sc : cmd) : Prop := c_bin sc = None /\ binless sc = true.
-
-Lemma binless_iff c : binless c = true <-> forall sc, In sc (c_subs c) -> unnamed sc.
-Proof.
-  destruct c as [n al args subs bin h v s g]. cbn [binless c_subs]. rewrite forallb_forall. unfold unnamed. split.
-  - intros H sc Hin. specialize (H sc Hin). apply andb_true_iff in H. destruct H as [H1 H2].
-    split; [|exact H2]. destruct (c_bin sc); [discriminate|reflexivity].
-  - intros H sc Hin. destruct (H sc Hin) as [H1 H2]. rewrite H1, H2. reflexivity.
-Qed.
-
-Lemma binless_with_sets c s g : binless (with_sets c s g) = binless c. Proof. destruct c; reflexivity. Qed.
-Lemma binless_with_args c l : binless (with_args c l) = binless c. Proof. destruct c; reflexivity. Qed.
-Lemma binless_with_version c v : binless (with_version c v) = binless c. Proof. destruct c; reflexivity. Qed.
-Lemma binless_with_bin c b : binless (with_bin c b) = binless c. Proof. destruct c; reflexivity. Qed.
-Lemma bin_with_version c v : c_bin (with_version c v) = c_bin c. Proof. destruct c; reflexivity. Qed.
-
-Lemma unnamed_with_args sc l : unnamed sc -> unnamed (with_args sc l).
-Proof. intros [H1 H2]. split; [rewrite bin_with_args; exact H1|rewrite binless_with_args; exact H2]. Qed.
-Lemma unnamed_with_sets sc s g : unnamed sc -> unnamed (with_sets sc s g).
-Proof. intros [H1 H2]. split; [rewrite bin_with_sets; exact H1|rewrite binless_with_sets; exact H2]. Qed.
-Lemma unnamed_with_version sc v : unnamed sc -> unnamed (with_version sc v).
-Proof. intros [H1 H2]. split; [rewrite bin_with_version; exact H1|rewrite binless_with_version; exact H2]. Qed.
-
-Lemma unnamed_propagate p sc : unnamed sc -> unnamed (propagate_subcommand p sc).
-Proof.
-  intros H. unfold propagate_subcommand. apply unnamed_with_sets.
-  destruct (s_pver (c_set p) && c_version p); [apply unnamed_with_version|]; exact H.
-Qed.
-
-Lemma unnamed_copy : forall c, unnamed (copy_subtree_for_help c).
-Proof.
-  induction c as [n al args subs bin h v s g IH] using cmd_ind'. cbn [copy_subtree_for_help].
-  split; [reflexivity|]. apply binless_iff. cbn [c_subs]. intros sc Hin. apply in_map_iff in Hin.
-  destruct Hin as (x & <- & Hx). rewrite Forall_forall in IH. apply IH. exact Hx.
-Qed.
-
-Lemma unnamed_help_subcommand p : unnamed (help_subcommand p).
-Proof.
-  unfold help_subcommand. apply unnamed_with_sets, unnamed_with_version, unnamed_propagate.
-  split; [reflexivity|]. apply binless_iff. cbn [c_subs]. intros sc Hin. apply in_app_or in Hin. destruct Hin as [Hin|[<-|[]]].
-  - apply in_map_iff in Hin. destruct Hin as (x & <- & _). apply unnamed_copy.
-  - split; reflexivity.
-Qed.
-
-Lemma unnamed_add_globals gl sc : unnamed sc -> unnamed (add_globals gl sc).
-Proof. apply add_globals_inv. intros x l. apply unnamed_with_args. Qed.
-
-Lemma build_self_binless c : binless c = true -> binless (build_self c) = true.
-Proof.
-  intros H. apply binless_iff. intros sc Hin.
-  unfold build_self, bs_globals in Hin. set (x := bs_help_version _) in Hin. rewrite subs_with_subs in Hin.
-  apply in_map_iff in Hin. destruct Hin as (y & <- & Hy).
-  assert (Hu : unnamed y).
-  { unfold x in Hy. rewrite help_version_subs in Hy.
-    assert (Hp : forall z, In z (c_subs (bs_propagate (bs_settings c))) -> unnamed z).
-    { intros z Hz. rewrite propagate_subs in Hz. apply in_map_iff in Hz. destruct Hz as (w & <- & Hw).
-      apply unnamed_propagate. apply (proj1 (binless_iff c) H w Hw). }
-    destruct (negb (is_set s_dhs (bs_propagate (bs_settings c)))); [|apply Hp; exact Hy].
-    apply in_app_or in Hy. destruct Hy as [Hy|[<-|[]]]; [apply Hp; exact Hy|apply unnamed_help_subcommand]. }
-  destruct (beq (c_name y) (lit "help") && negb (is_set s_dhs x)); [exact Hu|].
-  apply (unnamed_add_globals (filter a_global (c_args x)) y Hu).
-Qed.
-
-Lemma build_recursive_binless : forall fuel c b,
-  build_recursive fuel c = Some b -> binless c = true -> binless b = true /\ c_bin b = c_bin c.
-Proof.
-  induction fuel as [|f IH]; intros c b H Hb; [discriminate|]. cbn [build_recursive] in H.
-  destruct (map_opt (build_recursive f) (c_subs (build_self c))) as [subs|] eqn:E; [|discriminate].
-  inversion H; subst b; clear H. split; [|rewrite bin_with_subs; apply bin_build_self].
-  apply binless_iff. rewrite subs_with_subs. intros sc Hin.
-  apply map_opt_Forall2 in E.
-  assert (Hex : exists x, In x (c_subs (build_self c)) /\ build_recursive f x = Some sc).
-  { clear -E Hin. induction E as [|x y l r Hxy Hrest IHE]; [destruct Hin|].
-    destruct Hin as [->|Hin]; [exists x; split; [left; reflexivity|exact Hxy]|].
-    destruct (IHE Hin) as (z & Hz & Hr). exists z. split; [right; exact Hz|exact Hr]. }
-  destruct Hex as (x & Hx & Hr).
-  destruct (proj1 (binless_iff _) (build_self_binless c Hb) x Hx) as [Hx1 Hx2].
-  destruct (IH x sc Hr Hx2) as [H1 H2]. split; [rewrite H2; exact Hx1|exact H1].
-Qed.
-
-(** [_build_bin_names_internal] on a tree whose descendants carry no bin name *)
-Lemma assign_bins_linked : forall c inh,
-  binless c = true ->
-  match c_bin c with Some b => b <> [] | None => exists ib, inh = Some ib /\ ib <> [] end ->
-  linked (assign_bins inh c).
-Proof.
-  induction c as [n al args subs bin h v s g IH] using cmd_ind'. intros inh Hb Hne.
-  set (c := mkCmd n al args subs bin h v s g) in *.
-  assert (Hself : exists sb, c_bin (assign_bins inh c) = Some sb /\ sb <> [] /\
-            c_subs (assign_bins inh c) = map (fun sc => assign_bins (Some (sb ++ lit " " ++ c_name sc)) sc) subs).
-  { cbn [c assign_bins c_bin c_subs]. cbn [c c_bin] in Hne. destruct bin as [b|].
-    - exists b. split; [reflexivity|]. split; [exact Hne|]. apply map_ext. intros sc.
-      destruct b; [contradiction|reflexivity].
-    - destruct Hne as (ib & -> & Hib). exists ib. split; [reflexivity|]. split; [exact Hib|]. apply map_ext. intros sc.
-      destruct ib; [contradiction|reflexivity]. }
-  destruct Hself as (sb & Esb & Hsb & Esubs).
-  rewrite Forall_forall in IH.
-  assert (Hchild : forall sc0, In sc0 subs ->
-            linked (assign_bins (Some (sb ++ lit " " ++ c_name sc0)) sc0) /\
-            c_bin (assign_bins (Some (sb ++ lit " " ++ c_name sc0)) sc0) = Some (sb ++ [32] ++ c_name sc0) /\
-            c_name (assign_bins (Some (sb ++ lit " " ++ c_name sc0)) sc0) = c_name sc0).
-  { intros sc0 Hin. destruct (proj1 (binless_iff c) Hb sc0 Hin) as [H1 H2]. split; [|split].
-    - apply IH; [exact Hin|exact H2|]. rewrite H1. eexists; split; [reflexivity|]. destruct sb; [contradiction|discriminate].
-    - rewrite assign_bins_bin, H1. reflexivity.
-    - destruct sc0; reflexivity. }
-  intros p sc Hp Hin. destruct Hp as [->|Hd].
-  - rewrite Esubs in Hin. apply in_map_iff in Hin. destruct Hin as (sc0 & <- & Hin0).
-    destruct (Hchild sc0 Hin0) as (_ & Hbin & Hname). exists sb. split; [exact Esb|]. rewrite Hbin, Hname. reflexivity.
-  - inversion Hd as [c0 x Hx|c0 x p0 Hx Hd']; subst.
-    + rewrite Esubs in Hx. apply in_map_iff in Hx. destruct Hx as (sc0 & <- & Hin0).
-      destruct (Hchild sc0 Hin0) as (Hl & _ & _). apply (Hl _ sc (or_introl eq_refl) Hin).
-    + rewrite Esubs in Hx. apply in_map_iff in Hx. destruct Hx as (sc0 & <- & Hin0).
-      destruct (Hchild sc0 Hin0) as (Hl & _ & _). apply (Hl p sc (or_intror Hd') Hin).
-Qed.
-
-(** [Command::build] on a user tree without explicit bin names below the root yields a linked tree with the bin name *)
-Theorem build_linked c bin b :
-  binless c = true -> bin <> [] -> build (set_bin_name c bin) = Some b -> c_bin b = Some bin /\ linked b.
-Proof.
-  intros Hb Hne H. split; [exact (build_root_bin c bin b H)|].
-  unfold build in H. destruct (build_recursive _ _) as [c'|] eqn:E; [|discriminate].
-  inversion H; subst b. unfold build_bin_names.
-  destruct (build_recursive_binless _ _ _ E) as [H1 H2]; [unfold set_bin_name; rewrite binless_with_bin; exact Hb|].
-  apply assign_bins_linked; [exact H1|]. rewrite H2. destruct c; cbn. exact Hne.
-Qed.
 
 (** C16 (zsh), generate: for EVERY command tree without explicit bin names on subcommands, every assignment of texts and
     every non-empty bin name, [clap_complete::aot::generate(Zsh, ..)] writes a script: [build] does not run out of fuel,
     no [expect] of the generator fires, the recursion through the lookup by bin name ends *)
 Theorem generate_zsh_total bl c d bin :
-  binless c = true -> bin <> [] -> exists s, generate_zsh bl c d bin = Some s.
+  nb c = true -> bin <> [] -> exists s, generate_zsh bl c d bin = Some s.
 Proof.
   intros Hb Hne. unfold generate_zsh.
   destruct (build (set_bin_name c bin)) as [b|] eqn:E; [|exfalso; exact (build_total _ E)].
@@ -156,6 +27,77 @@ Theorem generate_zsh_is_built bl c d bin b :
 Proof. intros H. unfold generate_zsh. rewrite H. reflexivity. Qed.
 
 Example generate_zsh_total_example :
-  binless (mkCmd (lit "p") [] [] [mkCmd (lit "add") [] [] [] None false false sets0 sets0;
-                                  mkCmd (lit "add-all") [] [] [] None false false sets0 sets0] None false false sets0 sets0) = true.
+  nb (mkCmd (lit "p") [] [] [mkCmd (lit "add") [] [] [] None false false sets0 sets0;
+                             mkCmd (lit "add-all") [] [] [] None false false sets0 sets0] None false false sets0 sets0) = true.
 Proof. reflexivity. Qed.
+
+(** ---- the class [zsh_ok] from the user's tree ---- *)
+Definition no_blank (s : bytes) : bool := negb (existsb (N.eqb 32) s).
+
+Lemma no_blank_iff s : no_blank s = true <-> ~ In 32 s.
+Proof.
+  unfold no_blank. rewrite negb_true_iff. split.
+  - intros H Hin. assert (E : existsb (N.eqb 32) s = true); [|congruence].
+    apply existsb_exists. exists 32. split; [exact Hin|reflexivity].
+  - intros H. destruct (existsb (N.eqb 32) s) eqn:E; [|reflexivity]. exfalso. apply H.
+    apply existsb_exists in E. destruct E as (x & Hx & Ex). apply N.eqb_eq in Ex. subst x. exact Hx.
+Qed.
+
+Lemma nospace_names c : nospace c <-> names_ok no_blank c.
+Proof. unfold nospace, names_ok. split; intros H n Hn; apply no_blank_iff, H, Hn. Qed.
+
+Lemma siblings_ok_names c : siblings_ok c -> sibling_names c.
+Proof. intros H p Hp. apply nodup_names. exact (H p Hp). Qed.
+
+(** [Command::build] takes a user tree with distinct sibling names and aliases, no blank in a subcommand name, no explicit
+    bin names and no subcommand called [help] where clap generates one into the class of the zsh theorems *)
+Theorem build_zsh_ok c bin b :
+  nb c = true -> bin <> [] -> nospace c -> siblings_ok c -> help_free false c = true ->
+  build (set_bin_name c bin) = Some b -> zsh_ok b bin.
+Proof.
+  intros Hnb Hne Hsp Hsib Hhf Hb. destruct (build_linked c bin b Hnb Hne Hb) as [H1 H2].
+  constructor; [exact H1|exact H2| |].
+  - apply nospace_names. apply (build_names no_blank c bin b eq_refl Hb). apply nospace_names. exact Hsp.
+  - apply siblings_ok_names. exact (build_siblings_ok c bin b Hb Hsib Hhf).
+Qed.
+
+(** [generate] as a whole: the file it writes is the file of a tree in the class, so the theorems about [zsh_ok] trees
+    (exact lookup, one arm per path at every depth, the [_commands] functions, coverage) speak about it *)
+Theorem generate_zsh_ok bl c d bin :
+  nb c = true -> bin <> [] -> nospace c -> siblings_ok c -> help_free false c = true ->
+  exists b s, build (set_bin_name c bin) = Some b /\ zsh_ok b bin /\
+              generate_zsh bl c d bin = Some s /\ zsh_script bl b (dbuild (set_bin_name c bin) d) = Some s.
+Proof.
+  intros Hnb Hne Hsp Hsib Hhf.
+  destruct (build (set_bin_name c bin)) as [b|] eqn:E; [|exfalso; exact (build_total _ E)].
+  pose proof (build_zsh_ok c bin b Hnb Hne Hsp Hsib Hhf E) as Hok.
+  destruct (zsh_total bl b (dbuild (set_bin_name c bin) d) bin (zo_bin _ _ Hok) (zo_linked _ _ Hok)) as [s Hs].
+  exists b, s. split; [reflexivity|]. split; [exact Hok|]. split; [|exact Hs].
+  rewrite (generate_zsh_is_built bl c d bin b E). exact Hs.
+Qed.
+
+(** the hypotheses hold for the tree of [zsh_ok_example] as a user writes it (no bin names): siblings [add] / [add-all],
+    a visible and a hidden alias, two levels; the built tree has the path [a x] through the alias and the generated
+    [help add x] *)
+Definition zx_user : cmd := strip_bins zx_root.
+Lemma reach_cons' c sc w ws nm ns n :
+  In sc (c_subs c) -> In w (sc_words sc) -> c_name sc = nm -> reach sc ws ns n -> reach c (w :: ws) (nm :: ns) n.
+Proof. intros H1 H2 <- H3. eapply reach_cons; eauto. Qed.
+Example generate_zsh_ok_example :
+  nb zx_user = true /\ nospace zx_user /\ siblings_ok zx_user /\ help_free false zx_user = true /\
+  exists b n m, build (set_bin_name zx_user (lit "p")) = Some b /\
+    reach b [lit "a"; lit "x"] [lit "add"; lit "x"] n /\ In zx_opt (c_args n) /\
+    reach b [lit "help"; lit "add"; lit "x"] [lit "help"; lit "add"; lit "x"] m.
+Proof.
+  split; [reflexivity|]. split; [apply nospace_names, names_okb_sound; reflexivity|].
+  split; [apply siblings_okb_sound; reflexivity|]. split; [reflexivity|].
+  destruct (build (set_bin_name zx_user (lit "p"))) as [b|] eqn:E; [|exfalso; exact (build_total _ E)].
+  vm_compute in E. inversion E; subst b; clear E.
+  eexists _, _, _. split; [reflexivity|]. split; [|split].
+  - eapply reach_cons'; [left; reflexivity|right; left; reflexivity|reflexivity|].
+    eapply reach_cons'; [left; reflexivity|left; reflexivity|reflexivity|apply reach_nil].
+  - left; reflexivity.
+  - eapply reach_cons'; [right; right; left; reflexivity|left; reflexivity|reflexivity|].
+    eapply reach_cons'; [left; reflexivity|left; reflexivity|reflexivity|].
+    eapply reach_cons'; [left; reflexivity|left; reflexivity|reflexivity|apply reach_nil].
+Qed.
